@@ -179,8 +179,9 @@ func (fv *FV) heapLoadPath(st *State, ref Term, root types.Type, path []int) Ter
 	}
 	if _, isP := cur.T.Underlying().(*types.Pointer); isP {
 		// refs read from the heap are allocated
-		al := fv.heapGet(st.heap, st.epoch, "pv_alloc", arraySort(SInt, SBool))
-		st.assume(tSelect(al, cur, SBool))
+		cur = fv.def(st, "ld", cur)
+		st.assume(fv.isAlloc(st.heap, st.epoch, cur))
+		fv.assumeTypeInv(st, cur, cur.T)
 	}
 	return cur
 }
@@ -198,6 +199,7 @@ func (fv *FV) heapStorePath(st *State, ref Term, root types.Type, path []int, v 
 	}
 	nh := fv.def(st, name, tStore(h, ref, nv))
 	st.heap[name] = nh
+	fv.markDirty(st, ref, root)
 }
 
 func (fv *FV) nestedSet(cur Term, path []int, v Term) Term {
@@ -429,9 +431,9 @@ func (fv *FV) step(st *State) (*State, []*State) {
 
 func (fv *FV) newRef(st *State, prefix string) Term {
 	ref := fv.freshConst(st, prefix, SInt, nil)
-	al := fv.heapGet(st.heap, st.epoch, "pv_alloc", arraySort(SInt, SBool))
-	st.assume(tAnd(tNot(tEq(ref, mkInt(0))), tNot(tSelect(al, ref, SBool))))
-	st.heap["pv_alloc"] = fv.def(st, "pv_alloc", tStore(al, ref, tTrue))
+	nx := fv.nextOf(st.heap, st.epoch)
+	st.assume(tEq(ref, nx))
+	st.heap["pv_next"] = Term{S: "(+ " + ref.S + " 1)", Sort: SInt}
 	st.nonnil[ref.S] = true
 	return ref
 }
@@ -715,8 +717,8 @@ func (fv *FV) typeAssert(st *State, x *ssa.TypeAssert) {
 	}
 	fv.oblige(st, "assert-type", typeShort(x.AssertedType), x.Pos(), ok, "")
 	if _, isP := x.AssertedType.Underlying().(*types.Pointer); isP {
-		al := fv.heapGet(st.heap, st.epoch, "pv_alloc", arraySort(SInt, SBool))
-		st.assume(tSelect(al, res, SBool))
+		st.assume(fv.isAlloc(st.heap, st.epoch, res))
+		fv.assumeTypeInv(st, res, x.AssertedType)
 	}
 	fv.setReg(st, x, tv(res))
 }
